@@ -209,10 +209,17 @@ class Driver:
 # known findings
 
 def load_known():
+    """known_findings.json (maintained by hand) plus per-property files known_findings.d/Cxx.json."""
+    out = []
     p = os.path.join(VERIF, 'known_findings.json')
-    if not os.path.exists(p):
-        return []
-    return json.load(open(p))
+    if os.path.exists(p):
+        out.extend(json.load(open(p)))
+    d = os.path.join(VERIF, 'known_findings.d')
+    if os.path.isdir(d):
+        for f in sorted(os.listdir(d)):
+            if f.endswith('.json'):
+                out.extend(json.load(open(os.path.join(d, f))))
+    return out
 
 
 def match_known(pid, sig):
@@ -286,6 +293,26 @@ class Property:
 
 class TieBroken(Exception):
     pass
+
+
+_POOL_PROP = None
+
+
+def _pool_run(case):
+    return _POOL_PROP.run_impl(case)
+
+
+def run_impls(prop, cases):
+    """Run the real implementation on every case; in `prop.workers` forked processes when > 1."""
+    global _POOL_PROP
+    w = int(getattr(prop, 'workers', 1) or 1)
+    if w <= 1 or len(cases) < 4 * w:
+        return [prop.run_impl(c) for c in cases]
+    import multiprocessing as mp
+    _POOL_PROP = prop
+    ctx = mp.get_context('fork')
+    with ctx.Pool(min(w, os.cpu_count() or 1)) as pool:
+        return pool.map(_pool_run, cases, chunksize=max(1, len(cases) // (8 * w)))
 
 
 def corpus_cases(pid):
@@ -417,11 +444,8 @@ def _run(prop, args):
     known_hits = {}
     corr_diffs = []
     impls = []
-    for case in cases:
-        try:
-            impl = prop.run_impl(case)
-        except Infra:
-            raise
+    impl_list = run_impls(prop, cases)
+    for case, impl in zip(cases, impl_list):
         impls.append(impl)
         evaluations += 1
         for b in prop.bucket(case, impl):
